@@ -394,6 +394,31 @@ def _library(tk: str) -> Iterable[dict]:
     b1.out("out", b1.op(y, b1.recv(0, 1)))
     yield _prog(f"lib/send_input{sfx}", [b0, b1], tk)
 
+    # a CHAIN of holders stapled directly onto each other whose INNER holder is also
+    # referenced elsewhere: as another output, by another expression, as (part of) the data
+    # of the outer send -- every send exists once, however many paths lead to its holder
+    for variant in ("out", "expr", "data", "three"):
+        b0, b1 = _B(), _B()
+        x = b0.inp()
+        inner = b0.hold(b0.op(x), 1, 1, b0.op(x))
+        if variant == "data":
+            outer = b0.hold(b0.op(inner), 1, 2, inner)
+        else:
+            outer = b0.hold(b0.op(x, x), 1, 2, inner)
+        if variant == "three":
+            mid = outer
+            outer = b0.hold(b0.op(x), 1, 3, mid)
+            b0.out("mid", mid)
+        b0.out("out", outer)
+        if variant in ("out", "three"):
+            b0.out("inner", inner)
+        elif variant == "expr":
+            b0.out("other", b0.op(inner, x))
+        y = b1.inp()
+        tags = (1, 2, 3) if variant == "three" else (2, 1)
+        b1.out("out", b1.op(y, *[b1.recv(0, t) for t in tags]))
+        yield _prog(f"lib/chain_shared_inner_{variant}{sfx}", [b0, b1], tk)
+
     # one array sent to two peers under the same tag
     b0, b1, b2 = _B(), _B(), _B()
     x = b0.inp()
